@@ -420,6 +420,15 @@ def run(ctx, progs):
         ctx.floor("R17.2.accesses", n, 14)
         n = rule_guard_liveness(ctx.ob, prog, eff)
         ctx.floor("R17.3.guards", n, 8)
+        # a guard of an element array starts at the first byte of what it guards and is as long in BYTES: element counts / indices
+        # must be scaled before they become pointer offsets or guard lengths (unit rule shared with C01 R1.7)
+        from . import c01
+
+        def rep176(rule, instance, ok, where="", detail=""):
+            if re.search(r"\|(add|sub|offset|wrapping_add|wrapping_sub|read|write|new)#", instance):
+                return ctx.ob("R17.6.guard_units", instance, ok, where, detail)
+            return ok
+        c01.rule_element_units(rep176, prog, eff)
         if cfg == "XEN":
             n = rule_xen(ctx.ob, prog, eff)
             ctx.floor("R17.4.xen", n, 19)
